@@ -498,8 +498,11 @@ func Run(c *core.Ctx) core.FinishOpts {
 		runChild(c, strings.TrimPrefix(c.Only, "child:"))
 		return core.FinishOpts{Level: "exploration", Rule: "child worker process of C28 (no verdict of its own)"}
 	}
+	t0 := time.Now()
 	inProcessLeg(c)
+	t1 := time.Now()
 	cliLeg(c)
+	c.Note("leg_seconds", map[string]float64{"in_process": t1.Sub(t0).Seconds(), "cli": time.Since(t1).Seconds()})
 	return core.FinishOpts{
 		Level: "exploration",
 		Rule: "cases = seeded random plugin directory trees (names a, my-db, a-b-c, plugin, octosql-plugin-x, ...; repositories core/other/my-repo; 1-5 versions with prereleases and build metadata) " +
@@ -830,9 +833,9 @@ func genCLICase(c *core.Ctx, i int) cliCase {
 }
 
 type installCLICase struct {
-	ID       string      `json:"id"`
-	Install  installSpec `json:"install"`
-	ViaConfig bool       `json:"via_config"`
+	ID        string      `json:"id"`
+	Install   installSpec `json:"install"`
+	ViaConfig bool        `json:"via_config"`
 }
 
 func genInstallCLICase(c *core.Ctx, i int) installCLICase {
@@ -877,7 +880,14 @@ func cliLeg(c *core.Ctx) {
 	selfIdx := map[int]bool{}
 	if selftest {
 		for i, cs := range cases {
-			if selfLeft > 0 && len(cs.Plugins[cs.DBs[0].Plugin].Versions) >= 2 {
+			p := cs.Plugins[cs.DBs[0].Plugin]
+			eff := cs.DBs[0].Constraint
+			if eff == "" {
+				eff = "*"
+			}
+			acc, err := best(p.Versions, eff, false)
+			low := lowestMatching(p.Versions, eff, false)
+			if selfLeft > 0 && err == nil && len(acc) > 0 && !contains(acc, low) && !strings.Contains(p.Name, "-") {
 				selfIdx[i] = true
 				selfLeft--
 			}
@@ -1062,9 +1072,19 @@ func runCLICase(c *core.Ctx, r *cli.Runner, srv *plugtest.Server, sockDir, testp
 			continue
 		}
 		notInstalled := strings.Contains(string(res.Stderr), "is not installed with the required version")
+		// the dash defect also makes another plugin of the same repository whose name ends in
+		// "-<this name>" be discovered under this plugin's name, shadowing it
+		shadowedBy := ""
+		for _, q := range cs.Plugins {
+			if q.Repo == p.Repo && q.Name != p.Name && strings.Contains(q.Name, "-") && bugName(q.Name) == p.Name {
+				shadowedBy = q.Name
+			}
+		}
 		if len(acceptable) == 0 {
 			c.Count("cli/db/expected_unresolvable", 1)
-			if res.Exit == 0 {
+			if shadowedBy != "" && (res.Exit == 0 || !notInstalled) {
+				c.Violation("plugin-name-dash", fmt.Sprintf("no installed version of %s %v satisfies %q, but plugin %s of the same repository is discovered under the name %s and was resolved instead: exit %d %s", typ, p.Versions, effective, shadowedBy, p.Name, res.Exit, tail(string(res.Stderr), 200)), replay)
+			} else if res.Exit == 0 {
 				c.Violation("resolved-without-match", fmt.Sprintf("no installed version of %v satisfies %q, yet the database answered %s", p.Versions, effective, oneLine(res.Stdout)), replay)
 			} else if !notInstalled {
 				c.Violation("db-error", "unexpected failure: "+tail(string(res.Stderr), 300), replay)
@@ -1077,6 +1097,8 @@ func runCLICase(c *core.Ctx, r *cli.Runner, srv *plugtest.Server, sockDir, testp
 		if res.Exit != 0 {
 			if notInstalled && strings.Contains(p.Name, "-") {
 				c.Violation("plugin-name-dash", fmt.Sprintf("database of type %s (name contains '-') with installed versions %v and constraint %q is reported as not installed", typ, p.Versions, effective), replay)
+			} else if shadowedBy != "" {
+				c.Violation("plugin-name-dash", fmt.Sprintf("database of type %s with installed versions %v and constraint %q fails because plugin %s of the same repository is discovered under the name %s: %s", typ, p.Versions, effective, shadowedBy, p.Name, tail(string(res.Stderr), 200)), replay)
 			} else {
 				c.Violation("db-not-resolved", fmt.Sprintf("database of type %s with installed versions %v and constraint %q failed: %s", typ, p.Versions, effective, tail(string(res.Stderr), 300)), replay)
 			}
@@ -1090,6 +1112,10 @@ func runCLICase(c *core.Ctx, r *cli.Runner, srv *plugtest.Server, sockDir, testp
 		gotV, gotN, gotR := fmt.Sprint(rows[0].Values["version"]), fmt.Sprint(rows[0].Values["name"]), fmt.Sprint(rows[0].Values["repo"])
 		if gotN != p.Name || gotR != p.Repo {
 			c.Violation("db-wrong-plugin", fmt.Sprintf("database of type %s was served by plugin %s/%s", typ, gotR, gotN), replay)
+			continue
+		}
+		if !contains(acceptable, gotV) && shadowedBy != "" {
+			c.Violation("plugin-name-dash", fmt.Sprintf("type %s installed %v constraint %q: resolved to %s instead of %v because plugin %s of the same repository is discovered under the name %s", typ, p.Versions, effective, gotV, acceptable, shadowedBy, p.Name), replay)
 			continue
 		}
 		if !contains(acceptable, gotV) {
